@@ -600,6 +600,8 @@ impl IndexTable {
 			)))?;
 		}
 		log::trace!(target: "parity-db", "{}: Enacted chunk {}", self.id, index);
+		#[cfg(parity_db_verif)]
+		crate::verif::event("store", (1 << 16) | self.id.as_u16() as u64, index);
 		Ok(())
 	}
 
